@@ -6,12 +6,18 @@ From FoVerif Require Import Core.Common Core.Lib Core.MiniFo Core.SimDefs.
 Import ListNotations.
 Open Scope list_scope.
 
-Definition pure_b (e:expr) : bool :=
+Fixpoint pure_b (n:nat) (e:expr) {struct n} : bool :=
+  match n with O => false | S n =>
   match e with
   | EInt _ | EStr _ | EBool _ | EVar _ | ELam _ _ => true
   | ECall _ (S _) _ _ => true
+  | EBin _ a b | EEq _ a b => pure_b n a && pure_b n b
+  | ENot a | EField a _ => pure_b n a
+  | ETuple es | ERecord _ _ es | ESlice es => forallb (pure_b n) es
+  | ECtor _ _ None => true
+  | ECtor _ _ (Some a) => pure_b n a
   | _ => false
-  end.
+  end end.
 
 Definition user_b (x:var) : bool := negb (reserved x).
 Definition two_or_three_b (n:nat) : bool := Nat.eqb n 2 || Nat.eqb n 3.
@@ -40,7 +46,7 @@ Fixpoint wfe_b (n:nat) (e:expr) {struct n} : bool :=
   | EIfOnly c bt => wfe_b n c && wfb_b n bt
   | ELam ps b => forallb user_b ps && wfb_b n b
   | ECall f O _ args => user_b f && forallb (wfe_b n) args
-  | ECall f (S _) _ args => user_b f && forallb (wfe_b n) args && (negb strict || forallb pure_b args)
+  | ECall f (S _) _ args => user_b f && forallb (wfe_b n) args && (negb strict || forallb (pure_b n) args)
   | EExt fn args => src_fn fn && forallb (wfe_b n) args
   | EPipeVar a f _ => wfe_b n a && user_b f
   | EPipeCall a f args _ => wfe_b n a && user_b f && forallb (wfe_b n) args
@@ -95,8 +101,17 @@ Proof.
   destruct H as [H|H]; apply Nat.eqb_eq in H; auto.
 Qed.
 
-Lemma pure_b_ok e : pure_b e = true -> pure e.
-Proof. destruct e; try discriminate; try constructor. destruct missing; [discriminate|constructor]. Qed.
+Lemma pure_b_ok n : forall e, pure_b n e = true -> pure e.
+Proof.
+  induction n as [|n IH]; intros e H; [discriminate|].
+  assert (IHs : forall es, forallb (pure_b n) es = true -> Forall pure es).
+  { intros es Hf. apply Forall_forall. intros x I. apply IH. rewrite forallb_forall in Hf. apply Hf; exact I. }
+  destruct e; cbn [pure_b] in H; try discriminate;
+    repeat match goal with Hc : _ && _ = true |- _ => apply andb_true_iff in Hc; destruct Hc end;
+    try (constructor; auto; fail).
+  - destruct missing; [discriminate|constructor].
+  - destruct arg; constructor; auto.
+Qed.
 
 Lemma str_in_ok x l : str_in x l = false -> ~ In x l.
 Proof.
@@ -146,8 +161,8 @@ Proof.
                | H : _ && _ = true |- _ => apply andb_true_iff in H; destruct H
                end.
         constructor; auto using user_b_ok.
-        intros ->. cbn in *. apply Forall_forall. intros x I. apply pure_b_ok.
-        match goal with Hf : forallb pure_b args = true |- _ => rewrite forallb_forall in Hf; apply Hf; exact I end.
+        intros ->. cbn in *. apply Forall_forall. intros x I. apply (pure_b_ok n).
+        match goal with Hf : forallb (pure_b n) args = true |- _ => rewrite forallb_forall in Hf; apply Hf; exact I end.
     + constructor; auto.
     + constructor; auto using user_b_ok.
     + constructor; auto using user_b_ok.
